@@ -491,3 +491,78 @@ def dict_arg(expr: ast.AST, fn: Optional[ast.AST], depth: int = 0):
     if isinstance(expr, ast.Dict) and len(expr.keys) == 1 and expr.keys[0] is None:
         return dict_arg(expr.values[0], fn, depth + 1)
     return None
+
+
+def inline_call(model, fi, call: ast.Call, depth: int = 2) -> Optional[ast.AST]:
+    """If `call` resolves to a repository function whose every path ends in one `return <expr>` (a pure helper), return
+    <expr> with the helper's locals expanded (Resolver) and its parameters replaced by the call's argument expressions;
+    else None.  Used so that provenance rules see through helpers extracted from the function under analysis."""
+    q = model.resolve_call(fi, call)
+    if not q or q not in model.funcs:
+        return None
+    h = model.funcs[q]
+    rets = [n for n in walk_ordered(h.node) if isinstance(n, ast.Return) and n.value is not None]
+    if len(rets) != 1:
+        return None
+    R = Resolver(h.node)
+    expr = R.resolve(rets[0].value, rets[0])
+    try:
+        bound = call_args(call, h.node, skip_self=isinstance(call.func, ast.Attribute))
+    except Exception:
+        return None
+    mapping = {k: v for k, v in bound.items() if v is not None}
+
+    class T(ast.NodeTransformer):
+        def visit_Name(self, n):
+            if n.id in mapping and isinstance(n.ctx, ast.Load):
+                return ast.parse(f"({norm(mapping[n.id])})", mode="eval").body
+            return n
+
+        def visit_comprehension(self, n):
+            return self.generic_visit(n)
+    try:
+        out = T().visit(ast.parse(norm(expr), mode="eval").body)
+    except SyntaxError:
+        return None
+    ast.fix_missing_locations(out)
+    for p_ in ast.walk(out):
+        for c_ in ast.iter_child_nodes(p_):
+            c_._parent = p_  # type: ignore[attr-defined]
+    return out
+
+
+def inlined_function(model, fi, depth: int = 3, same_module_private_only: bool = True) -> ast.FunctionDef:
+    """A clone of fi's FunctionDef in which calls to pure-return helpers (same module, private name, one `return <expr>`)
+    are replaced by the helper's expression (locals expanded, parameters substituted), recursively up to `depth`.
+    Provenance rules run on the clone so that extracting a helper from a function does not hide what it computes."""
+    src = ast.unparse(ast.fix_missing_locations(fi.node))
+    clone = ast.parse(src).body[0]
+
+    def link(root):
+        for p_ in ast.walk(root):
+            for c_ in ast.iter_child_nodes(p_):
+                c_._parent = p_  # type: ignore[attr-defined]
+    link(clone)
+    for _ in range(depth):
+        changed = False
+
+        class T(ast.NodeTransformer):
+            def visit_Call(self, n):
+                nonlocal changed
+                n = self.generic_visit(n)
+                if isinstance(n.func, ast.Name) and (n.func.id.startswith("_") or not same_module_private_only):
+                    q = model.resolve_call(fi, n)
+                    if q and q in model.funcs and (model.funcs[q].module == fi.module or not same_module_private_only) and q != fi.qname:
+                        e = inline_call(model, fi, n, 1)
+                        if e is not None:
+                            changed = True
+                            return e
+                return n
+        clone = T().visit(clone)
+        ast.fix_missing_locations(clone)
+        clone = ast.parse(ast.unparse(clone)).body[0]
+        link(clone)
+        if not changed:
+            break
+    clone._parent = None  # type: ignore[attr-defined]
+    return clone
